@@ -439,6 +439,17 @@ def check_units(ctx, pid):
     """rule <pid>.U: no function charged to this property mixes units"""
     prog = ctx.prog
     n = 0
+    # liveness: the matcher must report a definite conflict on a tiny positive example, and stay silent on its consistent twin
+    e1, e2 = Env(), Env()
+    unit_of(parse("le(p1.total_asset_shares,checked_mul(p1.asset_share_value,p1.total_asset_shares))"), e1, {})
+    unit_of(parse("le(p2,checked_mul(p1.asset_share_value,p1.total_asset_shares))"), e2, {})
+    unit_of(parse("checked_sub(p1.total_asset_shares,p2)"), e2, {})
+    e3 = Env()
+    unit_of(parse("le(get_asset_amount(p1,p1.total_asset_shares),checked_mul(p1.asset_share_value,p1.total_asset_shares))"), e3, {})
+    ctx.inst(pid + ".U", "units/self-test", len(e1.conflicts) == 1 and len(e2.conflicts) == 1 and not e3.conflicts,
+             "the dimension checker reports shares compared with tokens (directly and through an inferred parameter) and accepts the converted form",
+             "direct=%d inferred=%d consistent=%d" % (len(e1.conflicts), len(e2.conflicts), len(e3.conflicts)), None)
+    ctx.floor(pid + ".U", 2)
     sigs = param_units(prog)
     for f in scope(prog):
         try:
